@@ -10,7 +10,9 @@ WT=/tmp/wt-$TAG
 /verif/tools/mkscratch.sh $WT >/dev/null
 ( cd $WT && patch -p1 -s < "$PATCH" )
 set +e
-unshare -m sh -c "mount --bind $WT /repo && cd /verif && VERIF_BUILD_TAG=$TAG VERIF_TMP=/dev/shm/$TAG $*"
+export VERIF_BUILD_TAG=$TAG VERIF_TMP=/dev/shm/$TAG
+mkdir -p /dev/shm/$TAG
+unshare -m sh -c "mount --bind $WT /repo && cd /verif && $*"
 RC=$?
 rm -rf $WT /verif/.build/*-$TAG /dev/shm/$TAG
 exit $RC
